@@ -460,6 +460,12 @@ def run(index, rep, tier):
                         par_ = pm_.get(nd.stmt)
                         vn = nd.ast.value.id if isinstance(nd.ast.value, ast.Name) else None
                         if not (isinstance(par_, ast.If) and vn and {x.id for x in ast.walk(par_.test) if isinstance(x, ast.Name)} == {vn} and pm_.get(par_) is init.node):
+                            # a fresh default installed when the object's own state says 'nothing there yet' must need
+                            # ALL of those tests: `if self.a is None or not self.b:` installs it although b was taken over
+                            if isinstance(par_, ast.If) and nd.stmt in par_.body and isinstance(par_.test, ast.BoolOp) and isinstance(par_.test.op, ast.Or) \
+                                    and sum(1 for v_ in par_.test.values if any(isinstance(x, ast.Name) and x.id == "self" for x in ast.walk(v_))) >= 2:
+                                rep.check(False, "R12.8", init.qualname, "fresh default installed when only one of several state tests holds: %s" % norm(par_.test)[:60], fn_where(init, nd.stmt), "",
+                                          "%s runs `%s` under `%s`: each operand asks whether a piece of state is still missing, and with `or` ONE missing piece is enough - on the copy-construction route (%s(other)) the base constructor has already taken the other piece over from the source, so the copy gets an extra, fresh default next to the copied state (a second state alphabet that becomes the default: cells are no longer states of the matrix's default alphabet)" % (init.qualname, norm_stmt(nd.stmt)[:60], norm(par_.test)[:70], k.name))
                             continue
 
                     def fresh(e, depth=0):
@@ -560,3 +566,29 @@ def run(index, rep, tier):
         stray = [a for a in ast.walk(sa_.node) if isinstance(a, ast.Assign) and any(isinstance(t, ast.Attribute) and t.attr == "target" and isinstance(t.value, ast.Name) and t.value.id != "self" for t in a.targets)]
         rep.check(writes_value and not stray, "R12.11", sa_.qualname, "bound annotations not re-pointed through `_value`", fn_where(sa_, stray[0] if stray else None), "the annotations setter rewrites `_value` of bound annotations",
                   "Annotable._set_annotations re-points attribute-bound annotations with `%s`: an Annotation keeps its owner in `_value` (owner, attribute name) - assigning a `target` attribute changes nothing, so the annotation goes on reading the attribute of the previous owner" % (norm_stmt(stray[0]) if stray else "nothing"))
+
+    # ---- R12.12 a shallow copy has containers of its own
+    with rep.section("R12.12"):
+        rep.rule("R12.12", "a shallow copy has containers of its own: a `__copy__` hook of the data model never assigns one of the receiver's container attributes (an attribute that some method of the class binds to a list / dict / set / OrderedDict ...) to the copy as it is - `other._trees = self._trees` makes source and copy two views of ONE list, so an append, delete or reverse on either shows through the other; the elements may be shared, the container is rebuilt (`list(...)`, `dict(...)`, a loop)")
+        FRESH = ("list", "dict", "set", "OrderedDict", "OrderedSet", "defaultdict", "deque")
+        n12 = 0
+        for q, k in sorted(index.classes.items()):
+            hook = k.methods.get("__copy__")
+            if hook is None or not any(q.startswith(m_) for m_ in PROP_MODULES["C12"]):
+                continue
+            containers = set()
+            for c_ in index.mro(k):
+                for mf in c_.methods.values():
+                    for a in ast.walk(mf.node):
+                        if isinstance(a, ast.Assign) and (isinstance(a.value, (ast.List, ast.Dict, ast.Set, ast.ListComp, ast.DictComp, ast.SetComp)) or (isinstance(a.value, ast.Call) and call_name(a.value) in FRESH)):
+                            for t in a.targets:
+                                if isinstance(t, ast.Attribute) and norm(t.value) == "self":
+                                    containers.add(t.attr)
+            for a in ast.walk(hook.node):
+                if isinstance(a, ast.Assign) and len(a.targets) == 1 and isinstance(a.targets[0], ast.Attribute) and isinstance(a.targets[0].value, ast.Name) and a.targets[0].value.id != "self":
+                    n12 += 1
+                    v = a.value
+                    shared = isinstance(v, ast.Attribute) and norm(v.value) == "self" and v.attr in containers
+                    rep.check(not shared, "R12.12", hook.qualname, "the copy is given the receiver's own `%s`" % (v.attr if shared else ""), fn_where(hook, a), "%s: `%s`" % (hook.qualname, norm_stmt(a)[:60]),
+                              "%s assigns `%s`: `%s` is a container of the receiver, so the 'copy' and the source are two views of one %s - appending a tree to the copy appends it to the source, and growing the copy of an empty list fills the source" % (hook.qualname, norm_stmt(a)[:60], v.attr if shared else "", "container"))
+        rep.floor("R12.12", "attribute assignments to the copy in __copy__ hooks", 1, n12)
